@@ -11,11 +11,12 @@ WORKLOADS = ["idle", "inflight", "queued", "reset"]
 BOUND = 10 + 5 * 3.2 + 0.5          # command timeout + sum of link timeouts (+ slack for scheduling)
 
 
-def run_full(workload, kind, position, when="before", ncp_v=8, close_instead=False):
+def run_full(workload, kind, position, when="before", ncp_v=8, close_instead=False, pre=None):
     """position: index of the wire event (host write or NCP frame delivery) at which the failure is injected;
     position None = dry run that only counts wire events"""
     s = fullstack.Stack(ncp_version=ncp_v)
-    s.add_app_callback()
+    if pre is None:
+        s.add_app_callback()
     st = {"n": 0, "injected_at": None, "writes_after_stop": 0}
     res = {}
 
@@ -66,6 +67,21 @@ def run_full(workload, kind, position, when="before", ncp_v=8, close_instead=Fal
 
     async def main():
         await s.ez.startup_reset()
+        if pre is not None:
+            # a first failure while no application is attached yet (it is only logged), then the application
+            # registers; the failure injected afterwards must be reported like any other
+            for _ in range(pre[1]):
+                s.ncp.spontaneous("error", 0x52) if pre[0] == "error" else s.ncp.spontaneous("rstack", 0x02)
+                s.line.flush()
+                await asyncio.sleep(0.5)
+            if pre[0] == "exhaust":
+                s.line.cut = True
+                try:
+                    await s.ez.nop()
+                except BaseException:  # noqa
+                    pass
+                s.line.cut = False
+            s.add_app_callback()
         st["n"] = 0
         st["armed"] = True
         tasks = []
@@ -167,7 +183,7 @@ class Check(PropertyCheck):
     rule = ("(a) gateway-level histories (failure codes, losses, EOF, deliberate close, commands, resets; upward calls singly and back to "
             "back) compared with the Coq model; (b) full stack in virtual time: workloads {idle, command in flight, commands queued, reset in "
             "progress} x failure kinds {ERROR, unsolicited RSTACK, silent NCP, connection_lost, EOF} injected before and after every wire "
-            "event, plus deliberate close, judged by the property predicate; non-trivial = a failure is injected; distinct by scenario")
+            "event, plus deliberate close, plus the same failures after an earlier failure that hit before the application registered, judged by the property predicate; non-trivial = a failure is injected; distinct by scenario")
     assumptions = ["threaded mode (use_thread=True) is outside this check (C20)",
                    "simulated NCP and line (harness/fullstack.py)"]
 
@@ -188,13 +204,17 @@ class Check(PropertyCheck):
                         cases.append(("full", {"workload": w, "kind": kind, "pos": pos, "when": when}))
                 cases.append(("full", {"workload": w, "kind": kind, "pos": 10_000, "when": "before"}))
             cases.append(("full", {"workload": w, "kind": "error", "pos": 1, "when": "before", "close": True}))
+        for pre in (["error", 1], ["error", 2], ["rstack", 1], ["exhaust", 0]):
+            for kind in ("error", "rstack", "lost", "eof"):
+                for w in ("idle", "inflight"):
+                    cases.append(("full", {"workload": w, "kind": kind, "pos": 10_000, "when": "before", "pre": pre}))
         return cases
 
     def run_impl(self, case):
         k, c = case
         if k == "gw":
             return cgw.run_events(c)
-        return run_full(c["workload"], c["kind"], c["pos"], c["when"], close_instead=c.get("close", False))
+        return run_full(c["workload"], c["kind"], c["pos"], c["when"], close_instead=c.get("close", False), pre=c.get("pre"))
 
     def describe(self, case):
         k, c = case
